@@ -157,6 +157,38 @@ pub(crate) fn copy_elemwise<T: Copy>(dst: &mut [T], src: &[T]) {
     }
 }
 
+/// Fixed-array stable partitions with the contract of `utils::stable_partition_of_4/2` (the real functions
+/// are decided against the same reference in c17_utils; inside tree harnesses their `Vec`s chosen by a
+/// symbolic key dominate the cost).
+pub(crate) fn part4_stub<T>(sequence: &mut [T], shift: usize)
+where
+    T: num_traits::Unsigned + num_traits::PrimInt + Ord + std::ops::Shr<usize> + AsPrimitive<usize>,
+    usize: AsPrimitive<T>,
+{
+    let n = sequence.len();
+    assert!(n <= CAP);
+    let mut buf = [T::zero(); CAP];
+    let mut pos = 0;
+    let mut g = 0usize;
+    while g < 4 {
+        let mut i = 0;
+        while i < n {
+            let key: usize = (sequence[i] >> shift).as_() & 3;
+            if key == g {
+                buf[pos] = sequence[i];
+                pos += 1;
+            }
+            i += 1;
+        }
+        g += 1;
+    }
+    let mut i = 0;
+    while i < n {
+        sequence[i] = buf[i];
+        i += 1;
+    }
+}
+
 /// Contract stubs for the hard-wired `PrefetchSupport` (its own stage contract is decided in c09):
 /// `new` builds nothing, `approx_rank_unchecked` returns a monotone multiple of the sample rate.
 pub(crate) fn pfs_new_stub(_qv: &QVector, sample_rate_shift: usize) -> PrefetchSupport {
